@@ -25,6 +25,7 @@ ANCHORS = ['pycaption.scc:SCCReader._translate_line', 'pycaption.scc:SCCReader._
            'pycaption.scc.specialized_collections:_ensure_final_italics_node_closes',
            'pycaption.scc.specialized_collections:_get_layout_from_tuple',
            'pycaption.scc.state_machines:_PositioningTracker.update_positioning']
+THOROUGH_SCALE = 2.5        # random budgets of the thorough tier are multiplied by this
 REQUIRE = {'programs_single': 50, 'programs_doubled': 50, 'captions_compared': 500,
            'captions_multi_row': 50, 'captions_split_by_gap': 20, 'items_ext': 50, 'items_sp': 50,
            'items_bs': 20, 'items_mid': 50, 'italic_chars_expected': 100, 'decoder_states_seen': 20}
